@@ -163,7 +163,7 @@ func bigCases(tier string, yield func(Case) bool) {
 		for di, d := range drains {
 			k++
 			heavy := (ni + di) % 3 // over p-1, p, p+1 every drain meets every heavy shape once
-			if tier == "thorough" {
+			if tier == "thorough" && n < 16000 {
 				heavy = -1
 			}
 			if !emit(allOrders[k%len(allOrders)], n, patterns[k%len(patterns)], d, heavy) {
@@ -178,7 +178,7 @@ var specBig = pbt.Register(&pbt.Spec[Case]{
 	Rule: "enumerated BIG histories for every size n in {15,16,17,20,21,22} and {p-1,p,p+1 : p = 32,64,...,4096} (thorough: ...,16384) and every way of draining (RemoveAt first/last/middle/scattered position, Remove of scattered/ascending/descending values): " +
 		"(1) NewSorted over n values then drained to empty and beyond in blocks with Sweeps in between, (2) n Adds from empty then drained, (3) drained to under a quarter, regrown past n, drained, " +
 		"(4) 41 rounds of Add v/RemoveAt below/Index v/Remove w/Index v/Contains v/Add u/RemoveAt last/Index u/RemoveAt middle/Index u/Sweep at size n, (5) the length oscillating across n; " +
-		"value patterns ascending, descending, all-equal, two values, 7 values scattered, pairs, mostly distinct; all 15 orders/element types in rotation (quick: two orders per size and drain up to 1025, above that one order and, of the shapes 1-3, one per size and drain such that over p-1,p,p+1 each drain meets each; thorough: every order up to 1025, all shapes above). " + rule + ruleBigNT,
+		"value patterns ascending, descending, all-equal, two values, 7 values scattered, pairs, mostly distinct; all 15 orders/element types in rotation (quick: two orders per size and drain up to 1025, above that one order and, of the shapes 1-3, one per size and drain such that over p-1,p,p+1 each drain meets each; thorough: every order up to 1025, all shapes up to 8193). " + rule + ruleNT,
 	Enum: func(shard, shards int, tier string, yield func(Case) bool) {
 		i := 0
 		bigCases(tier, func(c Case) bool {
@@ -223,14 +223,14 @@ func genBig(t *rapid.T, sizes []int) Case {
 var specBigRand = pbt.Register(&pbt.Spec[Case]{
 	Property: "C07", Name: "C07.bigrand",
 	Rule: "rapid: BIG random histories: all 15 orders/element types; initial input = 0..6 explicit values plus 1..3 arithmetic runs whose lengths are drawn from sizes around 20, 32, 48, 64, 128, 256 (thorough: also 512, 1024), strides 0, +-1, small and large primes, Vals in {1,2,3,7,30,300,5000}; " +
-		"0..34 ops (raw arguments 0..300), each repeated 1..71 times (half of them once) with strides, the list run 1..9 times. " + rule + ruleBigNT,
+		"0..34 ops (raw arguments 0..300), each repeated 1..71 times (half of them once) with strides, the list run 1..9 times. " + rule + ruleNT,
 	Gen: func(t *rapid.T) Case {
 		if pbt.GetEnv().Tier == "thorough" {
 			return genBig(t, bigSizesThorough)
 		}
 		return genBig(t, bigSizes)
 	},
-	Run: Run, Quick: 2000, Thorough: 20000,
+	Run: Run, Quick: 2000, Thorough: 8000,
 })
 
 func TestC07Big(t *testing.T)     { pbt.Check(t, specBig) }
